@@ -177,6 +177,10 @@ func (p *parser) parseInt32Lit() int32 {
 	pos, lit := p.pos, p.lit
 
 	if p.tok == token.CHAR {
+		// 未闭合的字符面值只有一个引号
+		if len(lit) < 3 {
+			p.errorf(pos, "expect char, got %q", lit)
+		}
 		p.acceptToken(token.CHAR)
 		return int32(lit[1]) // '?'
 	}
